@@ -80,7 +80,7 @@ def entries(draw, enc):
 
 @st.composite
 def junk(draw, enc):
-    kind = draw(st.sampled_from(['blank', 'tab', 'sep', 'sep', 'undecodable', 'badhex', 'oddhex', 'nul']))
+    kind = draw(st.sampled_from(['blank', 'tab', 'sep', 'sep', 'undecodable', 'badhex', 'oddhex', 'nul', 'hexjunk', 'hexjunk', 'hexempty']))
     if kind == 'blank':
         return ['', b'']
     if kind == 'tab':
@@ -94,6 +94,12 @@ def junk(draw, enc):
     if kind == 'undecodable':
         bad = {'utf-8': b'\xff\xfe', 'ascii': b'\xe9', 'cp1251': b'\x98', 'cp1252': b'\x81', 'latin-1': b'\x1f'}[enc]
         return [kind, b'ab' + bad + (MARK + 'xy').encode('ascii')]
+    if kind == 'hexempty':
+        return [kind, b'$HEX[]']
+    if kind == 'hexjunk':
+        # a password the input filter refuses, written in $HEX[] form (what hashcat does with such plains)
+        inner = draw(st.sampled_from(['ab\t' + MARK + 'x', 'a\x01' + MARK, MARK + '\n' + MARK, 'ab\x1c' + MARK + 'cd', '\r' + MARK + 'x\x7f\x00']))
+        return [kind, b'$HEX[' + inner.encode('ascii').hex().encode('ascii') + b']']
     if kind == 'badhex':
         return [kind, ('$HEX[zz' + MARK.encode('ascii').hex() + ']').encode('ascii')]
     if kind == 'oddhex':
